@@ -1749,8 +1749,12 @@ def twice_case(case):
         if '--date-set' not in cli and '--date-shift' not in cli and k % 4 != 3:
             # date options given as text: zone-less strings must not be read in the local time zone
             cli += [['--date-set', '2021-03-04 05:06:07'], ['--date-set', '2021-03-04'], ['--date-set', '2021-03-04T05:06:07+09:00'],
-                    ['--date-shift', '-90 minutes'], ['--date-set', '2021/03/04 23:59:59']][k % 5]
+                    ['--date-shift', '-90 minutes'], ['--date-set', '2021/03/04 23:59:59'],
+                    # a forward shift that carries every date far past the present: the result must not depend on when the run happens
+                    ['--date-shift', '+90 years'], ['--date-shift', '2000 weeks 3 days']][k % 7]
             count('date-option-as-text')
+            if k % 7 >= 5:
+                count('forward-date-shift-past-the-present')
         rc1, _, err1 = run_tool_prefixed(a, cli, GIT_ENV, [])
         prefix = ['nice', '-n', str(5 + k % 10)]
         if shutil.which('taskset'):
